@@ -350,16 +350,19 @@ func calcStatusCode(cfg *ResponseConfig, a *asset, segmentPart string, nowMS int
 		// Next we need to find the number after wrap
 		// For that we need to find the first segment nr after wrapStart
 		// Use nowMS = cycleStart to look up the latest segment published at that time
+		// firstNr is counted from the start of the stream (without the configured start number)
 		firstNr := 0
 		if nrWraps > 0 {
-			lastNr := findLastSegNr(cfg, a, wrapStartS*1000, segMeta.rep)
-			firstNr = lastNr + 1
+			lastNr := findLastSegNr(cfg, a, (cfg.StartTimeS+wrapStartS)*1000, segMeta.rep)
+			if lastNr >= 0 { // otherwise no segment has ended before the cycle start
+				firstNr = lastNr + 1
+			}
 		}
-		segTime := findSegStartTime(a, cfg, firstNr, segMeta.rep)
+		segTime := findSegStartTime(a, cfg, firstNr+cfg.getStartNr(), segMeta.rep)
 		if segTime < wrapStartS*repTimescale {
 			firstNr += 1
 		}
-		idx := int(segMeta.newNr) - firstNr
+		idx := int(segMeta.newNr) - cfg.getStartNr() - firstNr
 		if idx < 0 {
 			return 0, fmt.Errorf("segment %d is before first segment %d", segMeta.newNr, firstNr)
 		}
